@@ -245,7 +245,7 @@ def oracle(ctx, cr):
     if cr.rec is None:
         return
     if "error" in cr.rec:
-        ctx.violation("%s:harness_error" % op, cr.rec["error"][:300], det)
+        ctx.violation("%s:malformed_record" % op, cr.rec["error"][:300], det)
         return
     ctx.ev()
     exp = expected(m)
